@@ -363,6 +363,29 @@ theorem stop_inv (s : State) (h : Inv s) : Inv ((if s.conn.isSome then closeP s 
       simp only [Bool.and_eq_true] at hu
       exact quiet_up_done (s := s) h hu.1 hu.2
 
+theorem drainMain_inv : ∀ (n : Nat) (s : State), Inv s → Inv (drainMain n s).1
+  | 0, s, h => h
+  | n + 1, s, h => by
+    unfold drainMain
+    cases hp : s.pc with
+    | mainLoop c =>
+      simp only []
+      cases hc : s.conn with
+      | none => exact h
+      | some k =>
+        simp only [andThen_fst]
+        refine drainMain_inv n _ ?_
+        split
+        · rename_i hk
+          exact mainIter_inv _ s h (h.main c k hp hc hk).1
+        · exact staleIter_inv s h (by rw [hp]; simp)
+    | backoff => exact h
+    | done => exact h
+    | passiveWait => exact h
+    | connecting => exact h
+    | awaitOpen c => exact h
+    | awaitKa c => exact h
+
 theorem react_inv (s : State) (e : Event) (h : Inv s) : Inv (react s e).1 := by
   cases e with
   | start =>
@@ -433,18 +456,7 @@ theorem react_inv (s : State) (e : Event) (h : Inv s) : Inv (react s e).1 := by
       split
       · exact h
       · rw [andThen_fst]
-        have hd : s.pc ≠ .done := by rw [hp]; simp
-        have hx : Inv (match s.conn with
-            | some k => if k.id = c then mainIter none s else staleIter s
-            | none => (s, [])).1 := by
-          cases hc : s.conn with
-          | none => exact h
-          | some k =>
-            simp only []
-            split
-            · rename_i hk
-              exact mainIter_inv _ s h (h.main c k hp hc hk).1
-            · exact staleIter_inv s h hd
+        have hx : Inv (drainMain (s.refreshQ + 1) s).1 := drainMain_inv _ s h
         split
         · rename_i c' hp'
           exact inv_of_ended (onNotify_ended _ _ _ (hx.hup (fun hd' => absurd (hp'.symm.trans hd') (by simp))))
